@@ -224,11 +224,11 @@ def run(ctx):
                 if r['frontier']:
                     ctx.sample(dict(impl=impl, flavour=flavour,
                                     history=r['frontier'][len(r['frontier']) // 2]), limit=4)
-                if ctx.viol:
+                if ctx.unknown_viol():
                     break
-            if ctx.viol:
+            if ctx.unknown_viol():
                 break
-        if ctx.viol:
+        if ctx.unknown_viol():
             break
     ctx.count['traces_validated_against_impl'] = ctx.count['transitions']
     return finish(
